@@ -165,7 +165,7 @@ def run(ctx):
     K.lean_verdict(ctx)
     corrs = []
     if K.build_hx(ctx) and K.build_drv(ctx):
-        args = ["%s=%s" % (k, facts.get(k, "unknown")) for k in ("resetsIdOnEmpty", "releasesGuardWhenImmediate", "rechecksObjectUnderGuard", "setTestsExistenceUnderGuard", "bodyShape")]
+        args = ["%s=%s" % (k, facts.get(k, "unknown")) for k in ("resetsIdOnEmpty", "releasesGuardWhenImmediate", "rechecksObjectUnderGuard", "setTestsExistenceUnderGuard", "bodyShape", "shiftByKeysOneSession", "deleteTrustsHandlerResult", "gatewayWritesRecheckObject")]
         c = K.correspondence(ctx, "C09", args, timeout=900)
         corrs.append(("C09", args, c))
     else:
